@@ -920,6 +920,12 @@ Inv_LinearSum ==
             b == IF Last.a.bmode = "none" THEN ZeroVec(Rows(W)) ELSE QV(Last.a.b[r]) IN
         /\ MEq(n.Sig[r], MatMulT(MatMul(W, Inv(p.Lam[r])), W))
         /\ VEq(n.mu[r], VAdd(MatVec(W, Truth(p, r).mu), b))
+        \* the law of y = W x + b through the exact (Isserlis) moments of its coordinates, any full-row-rank W
+        /\ LET T == Truth(p, r) f(a) == RowForm(W, b, a) IN
+           \A a1 \in 1..Rows(W) :
+              /\ FEq(n.mu[r][a1], Mom1(f(a1), T.mu, T.Sig))
+              /\ \A a2 \in 1..Rows(W) :
+                    FEq(n.Sig[r][a1][a2], FSub(Mom2(f(a1), f(a2), T.mu, T.Sig), FMul(Mom1(f(a1), T.mu, T.Sig), Mom1(f(a2), T.mu, T.Sig))))
         /\ Rows(W) = Cols(W) =>
              \A x \in Lattice2(NumD(p)) :
                 LNEq(EvalLn(n, r, VAdd(MatVec(W, x), b)), LNSub(EvalLn(p, r, x), LNLn(DetL(W))))
